@@ -130,7 +130,7 @@ impl Check for C11 {
                 events.push(Event { actor: 1, op: Op::Execute { lang: lang.into(), text }, clock });
             }
         }
-        crate::gen::session_variants(&mut r, &mut events, 3, 12, 0);
+        crate::gen::session_variants(&mut r, &mut events, 3, 12, 5);
         Trace { check: "C11".into(), seed, host_tz: env.host_tz.clone(), salt: r.next(), mode: if move_rate == 0 { "frozen-in-op".into() } else { "moving-in-op".into() }, events }
     }
 
